@@ -734,3 +734,99 @@ Proof.
   eapply sat_bind; [apply read_crashpad_module_links_sat; assumption|]. intros ml _.
   apply sat_ret; exact I.
 Qed.
+
+(* ------------------------------------------------------------------ round 3: fixed-layout streams, mac crash info, print sites *)
+Lemma sysinfo_strings_rsat : forall p e all b, wf_bytes all -> blen all < T62 -> wf_bytes b ->
+  rsat (fun _ => True) (sysinfo_strings p e all b).
+Proof.
+  intros p e all b Hwfa Hlena Hwf. unfold sysinfo_strings. destruct (can_read b 0 FSZ_SYSINFO); [|apply rsat_err].
+  eapply rsat_bind; [apply read_string_utf16_rsat; try assumption; apply val4; assumption|].
+  intros; apply rsat_ok; exact I.
+Qed.
+Lemma read_assertion_rsat : forall e b, rsat (fun _ => True) (read_assertion e b).
+Proof. intros; unfold read_assertion. destruct (can_read b 0 FSZ_ASSERTION); [apply rsat_ok; exact I | apply rsat_err]. Qed.
+Lemma read_breakpad_info_rsat : forall e b, rsat (fun _ => True) (read_breakpad_info e b).
+Proof. intros; unfold read_breakpad_info. destruct (can_read b 0 12); [apply rsat_ok; exact I | apply rsat_err]. Qed.
+Lemma read_soft_errors_rsat : forall b, rsat (fun _ => True) (read_soft_errors b).
+Proof. intros; unfold read_soft_errors. destruct (utf8_ok b); [apply rsat_ok; exact I | apply rsat_err]. Qed.
+Lemma read_mac_bootargs_rsat : forall p e all b, wf_bytes all -> blen all < T62 -> wf_bytes b ->
+  rsat (fun _ => True) (read_mac_bootargs p e all b).
+Proof.
+  intros p e all b Hwfa Hlena Hwf. unfold read_mac_bootargs. destruct (can_read b 0 12); [|apply rsat_err].
+  eapply rsat_bind; [apply read_string_utf16_rsat; try assumption; apply val8; assumption|].
+  intros; apply rsat_ok; exact I.
+Qed.
+
+Lemma read_cstring_utf8_pos : forall p b off, blen b < T62 -> 0 <= off ->
+  rsat (fun r => match r with Some (_, o) => 1 <= o | None => True end) (read_cstring_utf8 p b off).
+Proof.
+  intros p b off Hlen Hoff. unfold read_cstring_utf8.
+  eapply rsat_bind; [apply cstring_loop_rsat; [assumption | unfold fuel_of, blen; lia]|].
+  intros [o|] Ho; [|apply rsat_ok; exact I].
+  unfold chk_sub. rewrite chk_ok by (unfold T62, T64 in *; lia). cbn [of_chk rbind].
+  destruct (slice b off (o - 1)); apply rsat_ok; [lia | exact I].
+Qed.
+Lemma mac_cstring_rsat : forall p b off, blen b < T62 -> 0 <= off ->
+  rsat (fun r => match r with Some o => 1 <= o | None => True end) (mac_cstring p b off).
+Proof.
+  intros p b off Hlen Hoff. unfold mac_cstring.
+  eapply rsat_bind; [apply read_cstring_utf8_pos; assumption|].
+  intros [[s o]|] Hr; [|apply rsat_ok; exact I].
+  destruct (utf8_ok s); apply rsat_ok; [exact Hr | exact I].
+Qed.
+Lemma mac_strings_rsat : forall p b num, blen b < T62 ->
+  forall n i off, 0 <= off -> i + Z.of_nat n <= num -> rsat (fun _ => True) (mac_strings p n i num b off).
+Proof.
+  intros p b num Hlen. induction n as [|n IH]; intros i off Hoff Hi; cbn [mac_strings].
+  - apply rsat_ok; exact I.
+  - eapply rsat_bind; [apply mac_cstring_rsat; assumption|].
+    intros [o|] Ho; [|apply rsat_ok; exact I].
+    destruct (Z.ltb_spec i num); [|lia]. apply IH; lia.
+Qed.
+Lemma mac_records_rsat : forall p e all, wf_bytes all -> blen all < T62 -> forall strings_off, 0 <= strings_off ->
+  forall locs prev acc, rsat (fun _ => True) (mac_records p e all strings_off locs prev acc).
+Proof.
+  intros p e all Hwf Hlen so Hso. induction locs as [|[size rva] t IH]; intros prev acc; cbn [mac_records].
+  - apply rsat_ok; exact I.
+  - destruct (location_slice all size rva) as [r|] eqn:El; [|apply rsat_err].
+    destruct (location_slice_wf _ _ _ _ Hwf El) as [Hr Hrl].
+    destruct (can_read r 0 16); [|apply rsat_err].
+    destruct (match prev with Some v => _ | None => false end); [apply rsat_err|].
+    destruct (mac_layout _) as [[fixed num]|] eqn:Em; [|apply IH].
+    destruct (can_read r 0 fixed); [|apply rsat_err].
+    destruct (fixed >? so); [apply rsat_err|].
+    eapply rsat_bind.
+    { apply mac_strings_rsat; try lia.
+      unfold mac_layout in Em. repeat (match type of Em with context [if ?c then _ else _] => destruct c end); inversion Em; cbn; lia. }
+    intros [|] _; [apply IH | apply rsat_err].
+Qed.
+Lemma read_mac_crash_info_rsat : forall p e all b, wf_bytes all -> blen all < T62 -> wf_bytes b ->
+  rsat (fun _ => True) (read_mac_crash_info p e all b).
+Proof.
+  intros p e all b Hwfa Hlena Hwf. unfold read_mac_crash_info. destruct (can_read b 0 FSZ_MAC_CRASH); [|apply rsat_err].
+  apply mac_records_rsat; try assumption. apply val4; assumption.
+Qed.
+
+(* print sites *)
+Lemma chunk_array_agree : forall w, chunk_size w = array_len w.
+Proof. destruct w; reflexivity. Qed.
+Lemma stack_print_rsat : forall p w fuel remaining offset, 0 <= offset -> offset + remaining < T62 ->
+  remaining <= 4 * Z.of_nat fuel -> rsat (fun _ => True) (stack_print p fuel w remaining offset).
+Proof.
+  intros p w. assert (Hc : 4 <= chunk_size w <= 8) by (destruct w; cbn; lia).
+  induction fuel as [|fuel IH]; intros remaining offset H0 Hs Hf; cbn [stack_print].
+  - destruct (Z.ltb_spec remaining (chunk_size w)); [apply rsat_ok; exact I | lia].
+  - destruct (Z.ltb_spec remaining (chunk_size w)); [apply rsat_ok; exact I|].
+    rewrite chunk_array_agree, Z.eqb_refl. rewrite <- chunk_array_agree.
+    unfold chk_add. rewrite chk_ok by (unfold T62, T64 in *; lia). cbn [of_chk rbind].
+    apply IH; lia.
+Qed.
+Lemma hexdump_print_rsat : forall p fuel remaining offset, 0 <= offset -> offset + remaining < T62 ->
+  remaining <= 16 * Z.of_nat fuel -> rsat (fun _ => True) (hexdump_print p fuel remaining offset).
+Proof.
+  intros p. induction fuel as [|fuel IH]; intros remaining offset H0 Hs Hf; cbn [hexdump_print].
+  - destruct (Z.leb_spec remaining 0); [apply rsat_ok; exact I | lia].
+  - destruct (Z.leb_spec remaining 0); [apply rsat_ok; exact I|].
+    unfold chk_add. rewrite chk_ok by (unfold T62, T64 in *; lia). cbn [of_chk rbind].
+    apply IH; lia.
+Qed.
